@@ -235,7 +235,13 @@ func uspaces(s string) string {
 
 // bareUnits: characters whose UTF-8 encoding contains the bytes 0x85 / 0xA0 (the Latin-1 spaces
 // NEL and NBSP when a byte is misread as a rune), raw such bytes, and ordinary word characters.
-var bareUnits = []string{"à", "Р", "х", "ą", "慠", "\x85", "\xa0", "é", "Ā", "…", "a", "b", "z", "0", "/", "_", ".", "=", "-", "*", "x"}
+var bareUnits = []string{"à", "Р", "х", "ą", "慠", "\x85", "\xa0", "é", "Ā", "…", "a", "b", "z", "0", "/", "_", ".", "=", "-", "*", "x",
+	// runes whose LOW BYTE (r & 0xFF) is an operator or start character — ( ) , : @ and space " * - —
+	// from the 2-, 3- and 4-byte ranges: they are ordinary word characters unless a code point is
+	// truncated to a byte somewhere
+	"\u0128", "\u0129", "\u012c", "\u013a", "\u0140", "\u0120", "\u0122", "\u012a", "\u012d",
+	"\u7528", "\u5728", "\u4e3a", "\u6237", "\u4e2c", "\u4e40", "\u4e20", "\u4e22", "\u4e2a", "\u4e2d", "\u4e29",
+	"\U0001f528", "\U0001f529", "\U0001f52c", "\U0001f53a", "\U0001f540", "\U0001f520", "\U0001f522", "\U0001f52a", "\U0001f52d"}
 
 // uniSeps: what separates words: ASCII blanks and genuine Unicode spaces.
 var uniSeps = []string{" ", "\t", "\u0085", "\u00a0", "\u2003", "\u3000", "\u2003 ", " \u00a0", "\n\u3000"}
@@ -1179,7 +1185,7 @@ func main() {
 
 	// 0. witnesses of recorded defects and hand-picked corner cases
 	for _, t := range []string{`a:"x\\"`, `a:"x\\\\"`, `a:"x\"`, `a:"\\" b:"\\"`, `"\\":"\\"`, `a@("\\")`, `a:"\\\"" `,
-		"a\vb", "a@(1\f2)", "\f", "a:b\vc:d", "\v*", `a@fixed`, `a@first`, `.config@(a)`, `.unit`, `.config:a`, `a@()`, `a@( )`, `a@bogus`, `"":x`, `""`, `a:/x/y`, "a:/x/\u00a0", "a:/x/\xa0",
+		"a\vb", "a@(1\f2)", "\f", "a:b\vc:d", "\v*", "\u7528\u6237", "owner:\u7528\u6237", "\u7528\u6237:v", "k@(\u5728 \u4e3a)", "\U0001f528:\u0129", `a@fixed`, `a@first`, `.config@(a)`, `.unit`, `.config:a`, `a@()`, `a@( )`, `a@bogus`, `"":x`, `""`, `a:/x/y`, "a:/x/\u00a0", "a:/x/\xa0",
 		`a:(b OR /c/)`, `a:(b c)`, `a:()`, `(a:b`, `a:b)`, `-`, `- -*`, `a:b AND`, `OR`, `a:OR`, `a:AND`, `AND:a`, `a : b`, `a:"b"c`, `a:-b`, `a:*`, `a:/`, `a:/(/)/`, `a:/[/]/`,
 		"a:b\u2003c:d", "a:\"\n\"", `a:"\'"`, `a:"'"`, `a:"\400"`, `a:"\377"`, `a:"\ud800"`, `a:"\U00110000"`, `a:"\Uffffffff"`, "a:\"\x80\"", "\"\x80\x80\"@x", "\"\x80\x80\"@(y)", "\"\x80\x80\"", `,a`, `a,,b`, `a,`, `a@alpha@num`, `a @ alpha`} {
 		exprCase(t, "witness")
@@ -1226,12 +1232,13 @@ func main() {
 	}
 
 	// 0d. characters containing the bytes 0x85 / 0xA0, and Unicode spaces as separators
-	for _, w := range []string{"à", "Р", "х", "ą", "慠", "\x85", "\xa0", "aàb", "kР", "xх", "a\xa0b", "à/Р"} {
+	for _, w := range []string{"à", "Р", "х", "ą", "慠", "\x85", "\xa0", "aàb", "kР", "xх", "a\xa0b", "à/Р", "\u7528\u6237", "\u5728", "\u4e3a", "k\u0129", "\u0140x", "\U0001f528", "a\u4e2c", "\u0120", "\u4e2d\u6587", "x\u012a", "\u0122q"} {
 		bareCase(w)
 		fixedCase("k", []string{w, "y" + w})
 	}
 	for _, sp := range uniSeps {
 		sepCase("kà", "jР", sp)
+		sepCase("\u7528\u6237", "\u5728\u4e3a", sp)
 		sepCase("x", "y", sp)
 	}
 	for i, n := 0, hx.N(1200, 25000); i < n; i++ {
